@@ -64,6 +64,7 @@ type Part struct {
 	Level       string         `json:"level"`
 	Rule        string         `json:"rule"`
 	Evaluations int            `json:"evaluations"`
+	BulkNT      int            `json:"bulk_nontrivial"`
 	Digests     []string       `json:"nontrivial_digests"`
 	Classes     map[string]int `json:"classes"`
 	Samples     []any          `json:"samples"`
@@ -147,6 +148,16 @@ func (c *Collector) Case(h *History) {
 			}
 		}
 	}
+}
+
+// Bulk accounts for enumerated inputs that are not recorded one by one: evals
+// evaluations of which nontrivial are distinct (by construction of the
+// enumeration) and non-trivial by the rule.
+func (c *Collector) Bulk(evals, nontrivial int) {
+	c.mu.Lock()
+	defer c.mu.Unlock()
+	c.p.Evaluations += evals
+	c.p.BulkNT += nontrivial
 }
 
 // Sample adds an explicit sample (for enumerations).
